@@ -162,6 +162,31 @@ void h_end_of_block(void)
 #endif
 }
 
+
+/* O6.3  mtf_one(), fast path (index < 16): from EVERY position of the first row inside the slide and every content. */
+void h_mtf_fast(void)
+{
+  static uint8_t slide[SLIDE_LENGTH]; uint8_t *row[NUM_ROWS];
+  V_IN(unsigned, off0);
+  V_IN(unsigned, c);
+  V_IN(unsigned, q);
+  V_IN_ARR(uint8_t, init, ROW_WIDTH);
+  unsigned i; uint8_t before[ROW_WIDTH];
+  V_ASSUME(off0 <= SLIDE_LENGTH - ROW_WIDTH && c < ROW_WIDTH && q < SLIDE_LENGTH);
+  { uint8_t fill; for (i = 0; i < NUM_ROWS; i++) row[i] = slide + i * ROW_WIDTH; }      /* rows 1..15 are not touched by the fast path */
+  row[0] = slide + off0;
+  for (i = 0; i < ROW_WIDTH; i++) { slide[off0 + i] = init[i]; before[i] = init[i]; }
+  uint8_t qv = slide[q];
+  uint8_t r = mtf_one(row, slide, (uint8_t)c);
+  V_ASSERT(r == before[c], "mtf_one (index < 16): returns the element at that position of the list");
+  V_ASSERT(row[0] == slide + off0, "mtf_one (index < 16): the row does not move");
+  { int ok = slide[off0] == before[c]; for (i = 1; i < ROW_WIDTH; i++) if (slide[off0 + i] != (i <= c ? before[i - 1] : before[i])) ok = 0;
+    V_ASSERT(ok, "mtf_one (index < 16): the element moves to the front, the ones before it shift by one, the rest stay"); }
+  V_ASSERT((q >= off0 && q < off0 + ROW_WIDTH) || slide[q] == qv, "mtf_one (index < 16): nothing outside the first row changes");
+  if (c == 15) V_CANARY("last position of the row");
+  if (c == 0) V_CANARY("front element");
+}
+
 #ifdef VERIF_REPLAY
 int main(void) { HARNESS(); puts("REPLAY-PASS"); return 0; }
 #endif
